@@ -65,8 +65,11 @@ def decide(ctx, rs, missing, err, aspects, theorem, suite, keyf=None, errclass_o
     ntie = 0
     classes = {}
     for cid in missing[:3]:
-        ctx.violation("the probe process died while running this case (panic in a goroutine / out of memory)",
-                      dict(id=cid, log=(err or "")[-1500:]), key="probe-crash", theorem=theorem)
+        c0 = ctx.case_by_id.get(cid, {})
+        ctx.violation("the call never returned a result: the probe process had to be ended while running this case (panic in a "
+                      "goroutine of the library, a hang, or unbounded memory growth): %s" % ctx.died.get(cid, "")[:200],
+                      dict(id=cid, src_hex=c0.get("src_hex", "")[:4000], opts=c0.get("opts", ""), log=str(err or "")[-1500:]),
+                      key="probe-crash", theorem=theorem)
     for c, o, m in rs:
         if o is None:
             continue
@@ -327,6 +330,12 @@ def check_C02(ctx):
              b"def a { f = 1 and nil\n print f\n def b { print f\n f = 2\n print f }\n print f }\n",
              b"def a { var v = 1\n var v = 2\n print v }\n", b"def a { var v = 1 }\ndef b { var v = 2\n print v }\n",
              b"def a { def b { var v = 1 }\n var w = 2\n var v = 3\n print v + w }\n"]
+    # scopes with more than 240 / 255 variables: slot numbers and the count popped at the scope's end need 2 bytes
+    for n in (239, 240, 241, 250, 255, 256, 300):
+        decl = b"".join(b"var v%d = %d\n" % (i, i) for i in range(n))
+        srcs.append(decl + b"var a = v%d + 1\nprint a\nprint v0 + v%d\n" % (n - 1, n - 1))
+        srcs.append(b"var t = 7\ndef b {\n" + decl + b"print v%d\n}\nvar a = t + 1\nvar b2 = a + 1\nprint a\nprint b2\nprint t\n" % (n - 1))
+        srcs.append(b"def o { def b {\n" + decl + b"x = v%d\n}\nvar w = 9\nprint w\ny = w }\nvar z = 1\nprint z\n" % (n - 1))
     cases = [dict(id="s%d" % i, src=s) for i, s in enumerate(srcs)]
     rs, missing, err = interp.run(ctx, cases)
     decide(ctx, rs, missing, err, {"out", "blocks", "log", "parts"}, "C02_scoping", "scope", errclass_only=True)
@@ -348,7 +357,7 @@ def blocks_program(rng, with_bind=False, inject_error=True):
         mine = {}
         for _ in range(rng.randint(0, 6)):
             k = rng.random()
-            f = rng.choice(["host", "port", "on", "x", "srv", "tunnel"])
+            f = rng.choice(["host", "port", "on", "x", "srv", "tunnel"] + (["TYPE", "NAME"] if rng.random() < 0.15 else []))
             vis = dict(visible)
             vis.update(mine)
             if k < 0.45:
@@ -368,7 +377,7 @@ def blocks_program(rng, with_bind=False, inject_error=True):
                 lines.append(pad + b"var v_" + f.encode() + b" = 3")
             elif k < 0.85 and depth < 4:
                 t = rng.choice(types)
-                nmtxt, nm = rng.choice([(b"", ""), (b"", ""), (b' "a"', "a"), (b' "b"', "b"), (b' ""', ""), (b' "a.b"', "a.b")])
+                nmtxt, nm = rng.choice([(b"", ""), (b"", ""), (b' "a"', "a"), (b' "b"', "b"), (b' ""', ""), (b' "a.b"', "a.b"), (b' "a."', "a."), (b' "."', ".")])
                 key = t + ("." + nm if nm else "")
                 if (key in keys or key in mine or key in ("host", "port", "on")) and rng.random() < 0.85:
                     continue                      # mostly avoid duplicate children
@@ -417,7 +426,11 @@ def check_C03(ctx):
     rng = random.Random(ctx.seed * 3001 + 3)
     srcs = [blocks_program(rng) for _ in range(ctx.n(1000, 10000))]
     srcs += [blocks_program(rng, with_bind=True, inject_error=False) for _ in range(ctx.n(300, 3000))]
-    srcs += [b'def server "a" {}\ndef client "b" {}\ndef server "c" {}\ndef client "d" {}\nbind client:all -> slice\n',
+    srcs += [b'def p { def zone "example.com." {}\n def zone "example.com" {}\n def zone "" {}\n def zone "." {}\n def zone {} }\n',
+             b'def p { def zone "a." { x = 1 }\n def zone "a" { x = 2 } }\ndef zone "b." {}\ndef zone "b" {}\n',
+             b'def zone "master" { TYPE = "m"\n own = TYPE\n def record "www" { kind = TYPE\n label = NAME }\n NAME = "n"\n nm = NAME\n def record "x" { k = TYPE + NAME } }\n',
+             b'def a { x = 1\n def b { x = 2\n def c { x = 3\n print x }\n print x }\n print x }\n',
+             b'def server "a" {}\ndef client "b" {}\ndef server "c" {}\ndef client "d" {}\nbind client:all -> slice\n',
              b'def x "1" {}\ndef y "2" {}\ndef y "3" {}\nbind y:last -> struct\ndef x "4" {}\n',
              b'def rack "a\\tb" { same = NAME == "a\\tb" }\ndef rack "caf\\u00e9" {}\ndef rack "say \\"hi\\"" {}\n']
     srcs += [b'def a "n" { def b "m" { x = 1 }\n def b "m" { x = 2 } }\n', b"def a { def b {}\n b = 1 }\n",
